@@ -36,6 +36,8 @@ def eval_pair(fam, a, b):
                           'distance(%s,%s) [%s] expected %r got %r %s' % (a[0], b[0], form, exp, lib.describe(got), msg)))
 
     la, lb = lib.to_lib(a), lib.to_lib(b)
+    if a[0] == 'Point':
+        la = lib.use_point_elsewhere(la)
     forms = [('fn', lambda: distance(la, lb)), ('fn-swapped', lambda: distance(lb, la))]
     if a[0] != 'Point':
         forms.append(('method', lambda: la.distance(lb)))
